@@ -126,6 +126,14 @@ def classify(diags, lmap):
                 info["clause_text"] = (clause.get("text") or [{}])[0].get("text", "").strip()
                 if lmap[li].get("kind") in ("ensures", "requires"):
                     info["fn"] = lmap[li].get("fn")
+        if info["label"] is None:
+            # invariants / hint assertions carry `// [LABELS]` markers on their own line
+            for sp in spans:
+                li = sp["line_start"] - 1
+                if 0 <= li < len(lmap) and lmap[li].get("label") and lmap[li].get("kind") != "raw":
+                    info["label"] = lmap[li]["label"]
+                    info["clause_text"] = (sp.get("text") or [{}])[0].get("text", "").strip()
+                    break
         prim = None
         for sp in spans:
             if sp.get("is_primary"):
